@@ -239,7 +239,8 @@ def filter_rows(rows, min_depth, skip_somatic, paired):
     filter then).
     """
     required, optional = [], []
-    no_depth_info = all(all(_isnan(d) or d == 0 for d in r["depth"]) for r in rows)
+    # "no depth for the sample anywhere in the file" is itself open when depths are open
+    no_depth_info = all(any(_isnan(d) or d == 0 for d in r["depth"]) for r in rows)
     for i, r in enumerate(rows):
         if skip_somatic and True in r["somatic"]:
             continue
@@ -247,7 +248,7 @@ def filter_rows(rows, min_depth, skip_somatic, paired):
             ds = r["n_depth"] if paired else r["depth"]
             verdicts = {(not _isnan(d)) and d >= min_depth for d in ds}
             if no_depth_info:
-                verdicts = {True, False}
+                verdicts = verdicts | {True}
             if verdicts == {False}:
                 continue
             if verdicts == {True, False}:
